@@ -287,7 +287,10 @@ def check(run, project):
     # A5 (= C07-NI-1): a constraint error that strict mode has caught is re-raised, not turned into a warning (C07-NI-1): else decoding goes on behind a skipped region and the error that is finally raised no longer accounts for the skipped bytes
     from ..report import RuleView as _RVm
     from . import c07 as _c07
-    _c07.check(_RVm(run, "NI-1", "A5"), project)
+    try:
+        _c07.check(_RVm(run, "NI-1", "A5"), project)
+    except AnalysisError as ex:
+        run.info(f"A5: the mode tests could not be followed ({ex}); not judged here (C07 reports it)")
     a3(run, project)
     # A4: a byte is charged to every enclosing region *before* it is read (else an overrun is noticed only after bytes
     # beyond the region were consumed, and the skip-to-region-end then swallows bytes that belong to the remainder)
